@@ -15,8 +15,8 @@ REPO = "/repo"
 SCR = "/tmp/mutcheck"
 
 
-def sh(cmd, cwd=None, timeout=3600):
-    p = subprocess.run(cmd, cwd=cwd, shell=isinstance(cmd, str), stdout=subprocess.PIPE, stderr=subprocess.STDOUT, text=True, timeout=timeout)
+def sh(cmd, cwd=None, timeout=3600, env=None):
+    p = subprocess.run(cmd, cwd=cwd, shell=isinstance(cmd, str), stdout=subprocess.PIPE, stderr=subprocess.STDOUT, text=True, timeout=timeout, env=env)
     return p.returncode, p.stdout
 
 
@@ -52,7 +52,47 @@ def run_demo(src, exe, wt):
     return sh(["sh", src, wt], timeout=600)
 
 
+def checks_only(sid, props):
+    """re-run checks against an already confirmed seeded change (seeded/<id>/patch.diff); keeps the confirmation data"""
+    outdir = os.path.join(VERIF, "seeded", sid)
+    meta = json.load(open(os.path.join(outdir, "meta.json")))
+    patch = os.path.join(outdir, "patch.diff")
+    results = run_checks(patch, props)
+    meta.setdefault("checks", {}).update(results)
+    meta["caught_by"] = [p for p, r in meta["checks"].items() if r["exit"] == 1 and r["violation"]]
+    meta["rechecked"] = time.strftime("%Y-%m-%dT%H:%M:%SZ", time.gmtime())
+    json.dump(meta, open(os.path.join(outdir, "meta.json"), "w"), indent=1)
+    print(json.dumps({"id": sid, "caught_by": meta["caught_by"], "checks": {p: (r["exit"], (r["violation"] or "")[:120]) for p, r in results.items()}}))
+
+
+def run_checks(patch, props):
+    results = {}
+    rc, out = sh(["git", "-C", REPO, "apply", patch])
+    assert rc == 0, "patch does not apply to /repo: " + out
+    try:
+        for p in props:
+            t0 = time.time()
+            rc, out = sh(["python3", os.path.join(VERIF, "tools", "check.py"), p, "--tier", "quick"], cwd=VERIF, timeout=7200,
+                         env=dict(os.environ, VERIF_EVIDENCE_DIR=os.path.join(SCR, "evidence")))
+            viol = [l for l in out.split("\n") if l.startswith("VIOLATION")]
+            replay = None
+            if viol:
+                mm = re.search(r"replay=(\S+)", viol[0])
+                if mm and os.path.exists(mm.group(1)):
+                    rp = json.load(open(mm.group(1)))
+                    replay = {k: rp.get(k) for k in ("kind", "op", "impl", "model", "verdict", "broken_theorems") if k in rp}
+                    if isinstance(replay.get("op"), str):
+                        replay["op"] = replay["op"][:400]
+            results[p] = {"exit": rc, "violation": viol[0] if viol else None, "replay": replay, "wall_s": round(time.time() - t0, 1),
+                          "summary": out.strip().split("\n")[-1][:300]}
+    finally:
+        sh(["git", "-C", REPO, "checkout", "--", "."])
+    return results
+
+
 def main():
+    if sys.argv[1] == "--checks-only":
+        return checks_only(sys.argv[2], sys.argv[3:])
     sid, d = sys.argv[1], sys.argv[2]
     props = sys.argv[3:]
     patch = os.path.join(d, "patch.diff")
@@ -80,26 +120,7 @@ def main():
     sh(["git", "-C", wt, "checkout", "--", "."])
     meta["confirmed"] = bool(rc0 == 0 and rc1 != 0 and meta["suite_build"]["exit"] == 0 and rc_t == 0)
     # run the checks against /repo with the patch applied
-    results = {}
-    rc, out = sh(["git", "-C", REPO, "apply", patch])
-    assert rc == 0, "patch does not apply to /repo: " + out
-    try:
-        for p in props:
-            t0 = time.time()
-            rc, out = sh(["python3", os.path.join(VERIF, "tools", "check.py"), p, "--tier", "quick"], cwd=VERIF, timeout=7200)
-            viol = [l for l in out.split("\n") if l.startswith("VIOLATION")]
-            replay = None
-            if viol:
-                mm = re.search(r"replay=(\S+)", viol[0])
-                if mm and os.path.exists(mm.group(1)):
-                    rp = json.load(open(mm.group(1)))
-                    replay = {k: rp.get(k) for k in ("kind", "op", "impl", "model", "verdict", "broken_theorems") if k in rp}
-                    if isinstance(replay.get("op"), str):
-                        replay["op"] = replay["op"][:400]
-            results[p] = {"exit": rc, "violation": viol[0] if viol else None, "replay": replay, "wall_s": round(time.time() - t0, 1),
-                          "summary": out.strip().split("\n")[-1][:300]}
-    finally:
-        sh(["git", "-C", REPO, "checkout", "--", "."])
+    results = run_checks(patch, props)
     meta["checks"] = results
     meta["caught_by"] = [p for p, r in results.items() if r["exit"] == 1 and r["violation"]]
     outdir = os.path.join(VERIF, "seeded", sid)
